@@ -94,6 +94,12 @@ CHECKS["C15"] = {
     "text": U + " of connectLoop, a popping data path, peers closing on their own and one or two End callers for max in {1,2(,3)} x scripted Catch outcomes {now, 3 s, error}; oracle: live peers <= max, Pop never returns a peer whose Close completed before the call, every End returns and never panics, no Catch begins and connectLoop stops after End, all peers closed. Plus NewWebRTCPeerWithEvents (real pion) over 6 ICE configurations x 20 rendezvous failures and SnowflakeConn.Close once/twice/concurrently on a real KCP+smux session.",
     "design_ref": "§3 C15", "note": SCHED_NOTE + " Peers in the scheduled harness carry no pion objects (as in the repository's own tests); process exit status is not decided.",
 }
+CHECKS["C19"] = {
+    "script": "c19.py", "category": "model_checking",
+    "technique": "exhaustive interleaving exploration of the rounded counter's atomic operations with a brute-force linearizability check; driven-traffic enumeration through the real IPC calls under virtual time; exhaustive binning check; journal enumeration with an injected clock",
+    "text": "roundedCounter: base in {0,7,8} x 2-3 threads x 1-2 Inc + a reader, every interleaving with <=3 (4) preemptions, no reduction, history linearizable w.r.t. 'n++; read=ceil8(n)' and final value = ceil8(total); metrics log lines and rounded prometheus counters after n in {0,1,7,8,9,16,17} events of 7 kinds; binCount(n) for all n <= 2^20; unique-address figures for all poll sequences <=2 (3) over 3 addresses x 5 types x 2 NATs; journal: chunkings of sets of size 0..64 into <=3 overlapping chunks x all windows on chunk edges +-1 ns (exact), 10^3 and 10^5 addresses (within 2 %), no address text in the file.",
+    "design_ref": "§3 C19", "note": SCHED_NOTE + " Linearizability is checked by brute force over the recorded call/return history instead of porcupine (histories have <= 8 operations).",
+}
 CHECKS["C08"] = {
     "script": "c08.py", "category": "exploration", "engine": "enum",
     "technique": "bounded-exhaustive enumeration of SDP documents from a grammar on the real stripping code against an independent net/netip classifier",
